@@ -147,6 +147,21 @@ func (w *World) monitorAckTiming() {
 		}
 	}
 	if w.quiet && !w.horizonHit {
+		// every return is acknowledged by an acknowledgement of its own: a
+		// retransmission by the broker (and its acknowledgement) does not
+		// stand in for the one the client owes for the first delivery
+		tl, _ := w.wireTimeline()
+		complete := map[uint16]int{}
+		for _, x := range tl {
+			if x.p.Type == tPUBACK || x.p.Type == tPUBREC {
+				complete[x.p.ID]++
+			}
+		}
+		for id, n := range delivered {
+			if complete[id] < n && w.client != nil && w.gen == 0 {
+				w.Violate("C07", "delivery-ack-missing", "message %#04x was returned %d times by ReadSlices but only %d acknowledgements for it were written", id, n, complete[id])
+			}
+		}
 		for _, sess := range w.bk.sessions {
 			for _, m := range sess.out {
 				if m.state == 1 && delivered[m.id] > 0 {
